@@ -37,7 +37,7 @@ func c12Forge(key []byte, uid uint64, expires uint32, level, serial, features ui
 
 func TestVfC12(t *testing.T) {
 	r := vfkit.New("C12")
-	defer r.Flush(true)
+	defer r.Finish()
 	e := vfBoot(vfConfig{CodeRetries: 3})
 	_ = e
 	rng := r.Rand(1)
